@@ -818,8 +818,9 @@ impl<'g, 's> LRTable<'g, 's> {
                                         (Associativity::Left, Associativity::None)
                                         | (_, Associativity::Left) => {
                                             // Override SHIFT with this REDUCE
-                                            assert!(actions.len() == 1);
-                                            actions.pop();
+                                            actions.retain(|x| {
+                                                !matches!(x, Action::Shift(_) | Action::Accept)
+                                            });
                                         }
                                         (Associativity::Right, Associativity::None)
                                         | (_, Associativity::Right) => {
@@ -848,8 +849,9 @@ impl<'g, 's> LRTable<'g, 's> {
                                 Ordering::Greater => {
                                     // This item operation priority is higher =>
                                     // override with reduce
-                                    assert!(actions.len() == 1);
-                                    actions.pop();
+                                    actions.retain(|x| {
+                                        !matches!(x, Action::Shift(_) | Action::Accept)
+                                    });
                                 }
                             }
                         }
